@@ -21,6 +21,7 @@ RULE = ("Generated: portfolios (a) without inter-temporal coupling (contracts wi
         "V_unsplit| <= tol, (b) V_split <= V_unsplit + tol; nodal balance of the split output on the original grid "
         "(C01's oracle); a fifth of the cases are fixed supply/demand profiles with a market in part of the horizon (intervals in which every variable is fixed, balanced or not): a reported solution must not contain an infeasible interval. Non-trivial: >= 2 non-empty intervals and (a partial interval or wacc != 0 or a storage), "
         "with non-zero optimum. Distinct = distinct spec hash.")
+RULE += (' Shapes: repeating intervals (same price curve, no discounting, equal lengths; take volumes of a contract differ per interval), daily grids across a daylight-saving switch split into blocks of days / weeks, storages with time blocks whose boundaries contain the interval boundaries (otherwise known finding D60, excluded).')
 ASSUMPTIONS = ["an infeasible interval makes the split problem report failure (no further claim)",
                "storages in (b): inflow and holding cost not combined (the constant holding cost of inflow differs by construction)"]
 
